@@ -293,8 +293,23 @@ impl Check for C15 {
 				let (Some(fx), Some(fxa)) = (run(c, &c.x), run(c, &xa)) else { return vs };
 				stats.ticks += 2 * fx.len() as u64;
 				stats.fault("replica:affine_image");
+				// a power of two far from 1 and no shift: every IEEE operation commutes with the scaling as long as nothing
+				// leaves the normal range, so the image run must equal the scaled run exactly - also for the methods whose
+				// factor is ill-conditioned (Vidya, VWMA), which the allowance below has to exempt
+				// (double precision only: in the value_type_f32 build 2^-80 times a rounding residue leaves the normal range)
+				let mut pow2 = !cfg!(feature = "value_type_f32") && b == 0.0 && (a.abs() < 1e-20 || a.abs() > 1e20) && c.x.iter().all(|x| x.val() == 0.0 || (x.val().abs() > 1e-150 && x.val().abs() < 1e150));
 				for t in 0..fx.len() {
 					let want = a * fx[t] + b;
+					if pow2 {
+						if !fx[t].is_finite() || !fxa[t].is_finite() || (fx[t] != 0.0 && !(fx[t].abs() > 1e-200 && fx[t].abs() < 1e200)) {
+							pow2 = false;
+						} else if fxa[t] != want {
+						// (compared as numbers: the image a*x+0 turns a -0.0 input into +0.0, so the sign of a zero result may differ)
+							fail!("power_of_two_scaling_exact", t, "f({a}*x) = {:e} at step {t}, {a}*f(x) = {want:e}: scaling by a power of two is exact, the two must be equal", fxa[t]);
+						} else {
+							stats.probe("power_of_two_scaling_bit_exact");
+						}
+					}
 					let m = a.abs() * mag(&c.x, t) + b.abs();
 					let tol = tolc(t, m) + 4.0 * U * (a.abs() * fx[t].abs() + b.abs());
 					if fx[t].is_finite() && fxa[t].is_finite() && (fxa[t] - want).abs() > tol {
@@ -455,7 +470,9 @@ impl Check for C15 {
 	}
 	fn rule(&self) -> String {
 		"One evaluation = one replica group for one MA kind (15 kinds of the MA constructor, Conv, VWMA) and one law: (0) affine image a*x+b with a in {2,-1,.5,-3.25,1e3,1e-3,1,-.125} \
-		 => outputs related by the same map; (1) constant input => the constant within 2*D(0), no growth with the number of steps (bit-exact reproduction is counted); (2) range: \
+		 => outputs related by the same map within the allowance (where Vidya / VWMA exceed it their ill-conditioned factor is exempt and counted), plus the factors 2^-80 and 2^70 without \
+		 shift, for which the image run must EQUAL the scaled run (scaling by a power of two commutes with every IEEE operation inside the normal range; every kind, no exemption; \
+		 double precision builds); (1) constant input => the constant within 2*D(0), no growth with the number of steps (bit-exact reproduction is counted); (2) range: \
 		 non-negative-weight kinds stay inside [min,max] of all values given so far; (3) superposition f(x+y) = f(x)+f(y) for the linear kinds; (4) impulse response = documented \
 		 weight profile (closed forms: box, linear, symmetric, triangle, geometric and their convolutions / signed combinations, LinReg's least-squares weights, Conv's reversed \
 		 weights), the length stratified over EVERY length 1..=254 in thorough. Coverage tuple = (kind, length class, law)."
